@@ -664,6 +664,7 @@ def _twin_worker(job):
         import traceback
         out["error"] = "%s: %s" % (type(e).__name__, e)
         out["trace"] = traceback.format_exc()[-800:]
+        out.setdefault("script", K.ser_cmds(prim.cmds))
         return out
     finally:
         prim.close()
@@ -692,7 +693,7 @@ def twin_runner(modes, rule, extra=None):
                 t = r["twin"][0]
                 violations.append({"property": prop, "failing_input": True, "seed": r["seed"], "job": r.get("job"),
                                    "what": "the two indexes of the real implementation diverge at command %d (opcode %d)" % (t["index"], t["op"]),
-                                   "divergence": t, "script": r["script"], "metas": r.get("metas"), "groups": r.get("groups")})
+                                   "divergence": t, "script": r.get("script"), "metas": r.get("metas"), "groups": r.get("groups")})
                 break
         if not violations:
             v, k = classify(prop, results, seed)
@@ -1029,10 +1030,21 @@ def _c16_worker(job):
         s.do(1, [rng.choice([0, 1]), []])
         for op, args in cfg.get("prelude", []):
             s.do(op, args)
-        for i in range(rng.randint(2, cfg["nw"])):
+        for i in range(0 if cfg.get("nowrites") else rng.randint(2, cfg["nw"])):
             op, args = G.gen_write(rng, s.tr, dict(G.DEFAULT_MIX, reopen=0, clear=0))
             s.do(op, args)
         specs = cfg.get("specs")
+        if specs is not None and cfg.get("query_of"):
+            # the page-link query is about the webentity that holds this page now
+            specs = [list(x) for x in specs]
+            w = s.do(20, [cfg["query_of"]])
+            wes = s.webentities()
+            for sp in specs:
+                if sp[0] == 4 and sp[1] is None:
+                    if C.is_err(w) or w not in wes:
+                        sp[0:3] = [4, 1, [cfg["query_of"]]]
+                    else:
+                        sp[1], sp[2] = w, wes[w]
         if specs is None:
             specs = []
             shared = [G.pick_lru(rng, s.tr) for _ in range(3)]      # pages several batches touch
@@ -1050,8 +1062,16 @@ def _c16_worker(job):
                     specs.append([0, data])
                 elif r < 0.78:
                     specs.append([1, G.pick_prefix(rng, s.tr), rng.choice([0, 1, 2, 3])])
-                elif r < 0.88:
+                elif r < 0.86:
                     specs.append([3, rng.randint(0, 1), rng.randint(0, 1)])
+                elif r < 0.93:
+                    wes = s.webentities()
+                    if wes:
+                        w = rng.choice(list(wes))
+                        fl = rng.choice([(0, 1, 0), (0, 1, 0), (0, 1, 1), (1, 1, 1), (1, 0, 0), (0, 0, 1)])
+                        specs.append([4, w, wes[w]] + list(fl))
+                    else:
+                        specs.append([3, 1, 0])
                 else:
                     wes = s.webentities()
                     if wes:
@@ -1100,6 +1120,45 @@ def _c16_worker(job):
                             out["fault"] = {"what": "page query under interleaving misses a page that qualified throughout: %r" % sorted(must - set(got))[:1]}
                         elif not set(got) <= may:
                             out["fault"] = {"what": "page query under interleaving returned a page that qualified at no moment"}
+        if not out["fault"] and not C.is_err(res):
+            moments = getattr(s.impl, "last_moments", {})
+            for k, sp in enumerate(specs):
+                if sp[0] != 3 or C.is_err(res[k][1]) or k not in moments or any(m is None for m in moments[k]) or not moments[k]:
+                    continue
+                got = set((x[0], x[2]) for x in res[k][1] if x[1] == 0)
+                coarse = [m[0] for m in moments[k]]
+                fine = set(x[2] for x in set.intersection(*[m[1] for m in moments[k]]))
+                if fine - got:
+                    out["fault"] = {"what": "network query under interleaving misses the edge %r although one page link sustained it "
+                                            "at every moment of the query" % (sorted(fine - got)[0],)}
+                elif got - set.union(*coarse):
+                    # finding F10 (call site: the page -> webentity map that get_webentities_links_iter fills across its yields)
+                    out["f10"] = {"edge": sorted(got - set.union(*coarse))[0], "kind": "reports an edge that the uninterrupted query reports at no moment",
+                                  "script": K.ser_cmds(s.cmds)}
+                elif set.intersection(*coarse) - got:
+                    out["f10"] = {"edge": sorted(set.intersection(*coarse) - got)[0],
+                                  "kind": "omits an edge that the uninterrupted query reports at every moment (sustained by different page links)",
+                                  "script": K.ser_cmds(s.cmds)}
+            for k, sp in enumerate(specs):
+                if sp[0] != 4 or C.is_err(res[k][1]) or k not in moments or any(m is None for m in moments[k]):
+                    continue
+                got = [tuple(x) for x in res[k][1]]
+                # a link qualifies under a clause (inbound, internal, outbound); throughout = under one clause at every moment
+                must, may = set(), set()
+                for c in range(3):
+                    if sp[3 + c] and moments[k]:
+                        must |= set.intersection(*[set((a, b) for a, b, _w in m[c]) for m in moments[k]])
+                        may |= set.union(*[set(m[c]) for m in moments[k]])
+                missing = must - set((a, b) for a, b, _w in got)
+                extra = [x for x in got if x not in may]
+                if missing:
+                    out["fault"] = {"what": "page-link query under interleaving misses a link that qualified throughout: %r" % (sorted(missing)[0],)}
+                elif extra and (sp[3], sp[4], sp[5]) in cfg.get("may_modes", [(0, 1, 0)]):
+                    out["fault"] = {"what": "page-link query under interleaving returned a link that qualified at no moment: %r" % (extra[0],)}
+                elif extra:
+                    # finding F11 (call site: get_webentity_pagelinks_iter resolves the other end of a link after its yields)
+                    out["f11"] = {"link": extra[0], "flags": [sp[3], sp[4], sp[5]], "script": K.ser_cmds(s.cmds)}
+                    out["stats_extra"] = out.get("stats_extra", 0) + 1
         s.do(43, [])
         s.do(44, [])
         mm = s.finish(bytes_facet=False)
@@ -1112,7 +1171,10 @@ def _c16_worker(job):
         out["ncmds"] = len(s.cmds)
         out["stats"] = {"coroutines": len(specs), "schedule_steps": len(sched),
                         "batches": sum(1 for x in specs if x[0] == 0), "rule_installs": sum(1 for x in specs if x[0] == 1),
-                        "page_queries": sum(1 for x in specs if x[0] == 2)}
+                        "page_queries": sum(1 for x in specs if x[0] == 2),
+                        "network_queries": sum(1 for x in specs if x[0] == 3),
+                        "pagelink_queries": sum(1 for x in specs if x[0] == 4),
+                        "pagelink_items_outside_every_moment": out.pop("stats_extra", 0)}
         out["digest"] = hash((tuple(K.ser_cmds(s.cmds[:3])), I.fmt(specs), tuple(sched))) & 0xFFFFFFFF
         if out["fault"] or out["mismatches"]:
             out["script"] = K.ser_cmds(s.cmds)
@@ -1177,6 +1239,73 @@ def c16_runner(prop, tier, seed, replay):
         sched = [rng.randrange(len(specs)) for _k in range(rng.randint(4, 30))]
         jobs.append((seed + len(jobs), {"nw": 2, "specs": specs, "sched": sched,
                                         "prelude": [[2, [rng.choice(below), rng.randint(0, 1)]], [2, [rng.choice(below), 0]], [2, [anchor, 1]]]}))
+    # a page-link query against writers that move its sources and targets into new webentities while it runs (a batch
+    # adding pages on the other scheme of the site, where a creation rule sits; a rule installation inside the site)
+    nplq = 500 if tier == "thorough" else 90
+    rng = random.Random(seed + 11)
+    for _ in range(nplq):
+        host = rng.choice([b"site", b"a"])
+        https, http = b"s:https|h:com|h:" + host + b"|", b"s:http|h:com|h:" + host + b"|"
+        tails = [b"p:a|", b"p:z|", b"p:foo|", b"p:foo|p:x|", b"p:foo|p:y|", b"p:m|", b"p:m|p:n|", b""]
+        side = rng.choice([https, https, http])
+        other = http if side == https else https
+        pages = [side + t for t in rng.sample(tails, rng.randint(3, 6))]
+        links = [[rng.choice(pages), rng.choice(pages)] for _k in range(rng.randint(2, 7))]
+        rules = [[other, rng.choice([2, 2, 3])]] if rng.random() < 0.7 else []
+        prelude = [[1, [rng.choice([0, 1, 1]), rules]], [3, [pages, 1]], [4, [links]]]
+        newp = [other + t for t in tails if t] + [side + b"p:foo|p:new|", side + b"p:zz|"]
+        data, seen = [], set()
+        for _k in range(rng.randint(1, 3)):
+            src = rng.choice(pages + newp)
+            if src in seen:
+                continue
+            seen.add(src)
+            data.append([src, [rng.choice(newp + pages) for _j in range(rng.randint(1, 3))]])
+        deep = [x for x in pages if x.count(b"|p:") >= 2]
+        if deep and rng.random() < 0.5:
+            # a link that appears only after its target has left the webentity: the batch first adds the page on the other
+            # scheme that makes a creation rule fire above the target, then links to the target from a later source
+            tg = rng.choice(deep)
+            top = b"|".join(tg[len(side):].split(b"|")[:1]) + b"|"
+            prelude[2][1][0].append([rng.choice(pages), tg])
+            data = [[rng.choice([side + b"p:zz|", side + b"p:z|", rng.choice(pages)]), [other + top, tg]]]
+            prelude[0][1][1] = [[other, 2]]
+            biased = True
+        else:
+            biased = False
+        fl = rng.choice([(0, 1, 0), (0, 1, 0), (0, 1, 1), (1, 1, 1), (0, 0, 1), (1, 0, 0)])
+        if biased and rng.random() < 0.6:
+            fl = (0, 1, 0)
+        specs = [[4, None, None] + list(fl), [0, data]]
+        if rng.random() < 0.5 and not biased:
+            specs.append([1, rng.choice([side + b"p:foo|", side + b"p:m|", other, side]), rng.choice([2, 3, 0])])
+        sched = [rng.choice([0, 0, 1, 1, 2]) % len(specs) for _k in range(rng.randint(4, 40))]
+        if biased and rng.random() < 0.7:
+            # the query makes a few steps, the batch runs to its end, the query finishes
+            sched = [0] * rng.randint(1, 5) + [1] * 12
+        jobs.append((seed + len(jobs), {"nw": 2, "specs": specs, "sched": sched, "prelude": prelude, "nowrites": True,
+                                        "query_of": rng.choice(pages)}))
+    # the witness of SchedRefute.C16_network_no_moment_refuted (finding F10), and random variants of it: a network query
+    # against a rule installation / batch that moves two linked pages of one webentity into one new webentity
+    Sx, Tx, Px = b"s:https|h:com|h:a|p:m|p:x|", b"s:http|h:com|h:a|p:m|p:y|", b"s:http|h:com|h:a|"
+    jobs.append((seed, {"nw": 2, "nowrites": True, "prelude": [[1, [0, []]], [2, [Sx, 0]], [2, [Tx, 0]], [4, [[[Sx, Tx]]]]],
+                        "specs": [[3, 1, 0], [1, Px, 2]], "sched": [0, 1, 1, 1, 1, 1, 0, 0, 0]}))
+    Ax, Bx, Cx = b"s:https|h:com|h:a|p:m|p:n|", b"s:https|h:com|h:a|p:m|", b"s:https|h:com|h:a|p:k|"
+    jobs.append((seed, {"nw": 2, "nowrites": True, "may_modes": [(0, 1, 0)],
+                        "prelude": [[1, [0, [[Px, 2]]]], [3, [[Ax, Bx, Cx], 0]], [4, [[[Ax, Bx], [Ax, Cx]]]]],
+                        "specs": [[4, 1, [b"s:https|h:com|h:a|"], 0, 0, 1], [0, [[b"s:http|h:com|h:a|p:m|p:q|", []]]]],
+                        "sched": [0, 1, 1, 1, 0, 0, 0]}))      # SchedRefute.C16_pagelinks_outbound_no_moment_refuted (F11)
+    rng = random.Random(seed + 13)
+    for _ in range(200 if tier == "thorough" else 40):
+        pg = [sc + b"h:com|h:a|" + t for sc in (b"s:http|", b"s:https|") for t in (b"p:m|p:x|", b"p:m|p:y|", b"p:m|", b"p:k|", b"")]
+        pages = rng.sample(pg, rng.randint(2, 6))
+        links = [[rng.choice(pages), rng.choice(pages)] for _k in range(rng.randint(1, 5))]
+        specs = [[3, rng.randint(0, 1), rng.randint(0, 1)], [1, rng.choice([Px, b"s:https|h:com|h:a|"]), rng.choice([2, 3])]]
+        if rng.random() < 0.4:
+            specs.append([0, [[rng.choice(pg), [rng.choice(pg) for _j in range(rng.randint(1, 2))]]]])
+        jobs.append((seed + len(jobs), {"nw": 2, "nowrites": True, "specs": specs,
+                                        "prelude": [[1, [rng.choice([0, 1]), []]], [3, [pages, 0]], [4, [links]]],
+                                        "sched": [rng.randrange(len(specs)) for _k in range(rng.randint(2, 30))]}))
     results = pool_map(_c16_worker, jobs)
     violations = []
     for r in results:
@@ -1187,6 +1316,23 @@ def c16_runner(prop, tier, seed, replay):
         if r.get("fault"):
             violations.append({"property": prop, "failing_input": True, "seed": r["seed"], "job": r.get("job"), "what": r["fault"]["what"], "script": r.get("script")})
             break
+    known = []
+    import check_main as M
+    f10 = [r for r in results if r.get("f10")]
+    f11 = [r for r in results if r.get("f11")]
+    for tag, rs, note, key in (
+            ("f10", f10, "F10: the network query (get_webentities_links_iter) interleaved with a writer that creates webentities %s"
+             % (f10[0]["f10"]["kind"] if f10 else ""), "edge"),
+            ("f11", f11, "F11: the page-link query (get_webentity_pagelinks_iter, inbound/outbound clauses) interleaved with a writer that "
+                         "creates webentities reports a link that qualified at no moment", "link")):
+        if not rs:
+            continue
+        k = M.match_known(prop, note)
+        if k:
+            known.append("%s (%d interleavings of this run, e.g. %s %r, seed %s)" % (k["what"], len(rs), key, rs[0][tag][key], rs[0]["seed"]))
+        elif not violations:
+            violations.append({"property": prop, "failing_input": True, "seed": rs[0]["seed"], "job": rs[0].get("job"),
+                               "what": note + ": %r" % (rs[0][tag][key],), "script": rs[0][tag]["script"]})
     if not violations:
         v, k = classify(prop, results, seed, allow_shrink=False)
         violations += v
@@ -1198,7 +1344,9 @@ def c16_runner(prop, tier, seed, replay):
                             "specification's sequential application; page-query answers sandwiched between the pages qualifying before and "
                             "after and the pages existing at the end")
     cov["fixed_pair_schedules"] = nsched
-    return {"violations": violations[:3], "known": [], "cov": cov}
+    cov["network_queries_outside_the_edge_sandwich_F10"] = len(f10)
+    cov["pagelink_queries_with_a_link_of_no_moment_F11"] = len(f11)
+    return {"violations": violations[:3], "known": known, "cov": cov}
 
 
 PROPS["C16"] = {"theorems": ["C16_alone_is_batch", "C16_schedule_independent"], "runner": c16_runner,
